@@ -418,6 +418,7 @@ ExpireCache ==
 \* environment: a block of the staged body is overwritten
 Overwrite(n, k) ==
   /\ b.overwrite < MaxOverwrite
+  /\ m.val.n # n          \* (not in the window between hashing the body and renaming it)
   /\ \/ d.part[n] # Nil /\ d' = [d EXCEPT !.part[n][k] = X]
      \/ d.full[n] # Nil /\ d' = [d EXCEPT !.full[n][k] = X]
   /\ b' = [b EXCEPT !.overwrite = @ + 1]
@@ -499,61 +500,95 @@ Next ==
 Spec == Init /\ [][Next]_vars
 
 -----------------------------------------------------------------------------
-(* Property formulas (over d and h)                                          *)
+(* Property formulas.  F_*(D, H) speak about a durable state D (fields as   *)
+(* d) and a history H (fields as h, plus crash, clean : counts and idle :     *)
+(* the receiver is quiescent and not recovering).  P_* apply them to this     *)
+(* specification's state; StageTrace.tla applies the same operators to the   *)
+(* states and history OBSERVED from the real code.                            *)
+HView == [arrive |-> h.arrive, ans |-> h.ans, passed |-> h.passed, cleaned |-> h.cleaned,
+          treated |-> h.treated, stale |-> h.stale, taint |-> h.taint, redo |-> h.redo,
+          shadow |-> h.shadow, seen |-> h.seen, crash |-> b.crash, clean |-> b.clean,
+          idle |-> (m.ready /\ m.rec = "" /\ m.thr = {} /\ m.vq = {} /\ m.fq = {}
+                    /\ m.val = NoJob /\ m.fin = NoJob)]
+
+LoggedD(D, n, v) == \E i \in 1..Len(D.rlog) : D.rlog[i].n = n /\ D.rlog[i].v = v
+LoggedAnyD(D, n) == \E i \in 1..Len(D.rlog) : D.rlog[i].n = n
+FirstLogIdxD(D, n) == CHOOSE i \in 1..Len(D.rlog) : D.rlog[i].n = n /\ \A j \in 1..(i - 1) : D.rlog[j].n # n
+LogCountD(D, n, v) == Cardinality({ i \in 1..Len(D.rlog) : D.rlog[i].n = n /\ D.rlog[i].v = v })
+StaleH(H, n) == KF_S19 /\ n \in H.stale
+TaintedH(H, n) == KF_S15 /\ n \in H.taint
+RedoneH(H, n) == KF_S20 /\ n \in H.redo
+ShadowH(H, n) == KF_S9 /\ n \in H.shadow
+HeldD(D, H, n, v) ==
+  \/ D.waitf[n] = Good(n, v) \/ D.finalLck[Target(n, Ren[n])] = Good(n, v)
+  \/ H.arrive[<<n, v>>] > 0 \/ LoggedD(D, n, v)
 
 \* C01: what is in the final directory is a complete announced version whose
-\* hash is in the receive log
-P_C01_Final ==
+\* hash is in the receive log; also while it is being moved
+F_C01_Final(D, H) ==
   \A n \in Names :
     LET t == Target(n, Ren[n])
-    IN (d.final[t] # Nil /\ ~Tainted(n) /\ (\A n2 \in Names : Target(n2, Ren[n2]) = t => n2 = n)) =>
-         \E v \in Vers[n] : d.final[t] = Good(n, v) /\ Logged(n, v)
-\* ... also while it is being moved
-P_C01_Lck == \A n \in Names : LET t == Target(n, Ren[n]) IN
-               d.finalLck[t] # Nil => \E n2 \in Names, v \in 1..3 : v \in Vers[n2] /\ d.finalLck[t] = Good(n2, v)
+    IN (D.final[t] # Nil /\ ~TaintedH(H, n) /\ (\A n2 \in Names : Target(n2, Ren[n2]) = t => n2 = n)) =>
+         \E v \in Vers[n] : D.final[t] = Good(n, v) /\ LoggedD(D, n, v)
+F_C01_Lck(D, H) ==
+  \A n \in Names : LET t == Target(n, Ren[n]) IN
+     D.finalLck[t] # Nil => \E n2 \in Names, v \in 1..3 : v \in Vers[n2] /\ D.finalLck[t] = Good(n2, v)
 \* a positive answer is given only for content that is held validated
-Held(n, v) == d.waitf[n] = Good(n, v) \/ d.finalLck[Target(n, Ren[n])] = Good(n, v)
-              \/ (h.arrive[<<n, v>>] > 0) \/ Logged(n, v)
-P_C01_NoFalsePass ==
-  (h.ans.kind = "status" /\ h.ans.res \in {"passed", "waiting"} /\ ~Tainted(h.ans.n)) => Held(h.ans.n, h.ans.v)
+F_C01_NoFalsePass(D, H) ==
+  (H.ans.kind = "status" /\ H.ans.res \in {"passed", "waiting"} /\ ~TaintedH(H, H.ans.n)
+   /\ <<H.ans.n, H.ans.v>> \in NV)
+     => HeldD(D, H, H.ans.n, H.ans.v)
 
 \* C05: each version arrives in the final directory at most once; the log
 \* repeats a record only across a crash
-P_C05_Once == \A nv \in NV : Stale(nv[1]) \/ Redone(nv[1]) \/ (KF_S9 /\ nv[1] \in h.shadow) \/ h.arrive[nv] <= 1
-LogCount(n, v) == Cardinality({ i \in 1..Len(d.rlog) : d.rlog[i].n = n /\ d.rlog[i].v = v })
-P_C05_LogOnce == \A nv \in NV : Stale(nv[1]) \/ Redone(nv[1]) \/ (KF_S9 /\ nv[1] \in h.shadow) \/ LogCount(nv[1], nv[2]) <= 1 + b.crash
+F_C05_Once(D, H) ==
+  \A nv \in NV : StaleH(H, nv[1]) \/ RedoneH(H, nv[1]) \/ ShadowH(H, nv[1]) \/ H.arrive[nv] <= 1
+F_C05_LogOnce(D, H) ==
+  \A nv \in NV : StaleH(H, nv[1]) \/ RedoneH(H, nv[1]) \/ ShadowH(H, nv[1])
+                   \/ LogCountD(D, nv[1], nv[2]) <= 1 + H.crash
 
 \* C04: a file is logged / delivered only after its predecessor (unless the
 \* cycle breaker intervened)
-FirstLogIdx(n) == CHOOSE i \in 1..Len(d.rlog) : d.rlog[i].n = n /\ \A j \in 1..(i - 1) : d.rlog[j].n # n
-P_C04_Order ==
+F_C04_Order(D, H) ==
   \A n \in Names :
-    (LoggedAny(n) /\ Prev[n] # "" /\ Prev[n] # n /\ Prev[n] \in Names /\ b.clean = 0) =>
-       (LoggedAny(Prev[n]) /\ FirstLogIdx(Prev[n]) < FirstLogIdx(n))
+    (LoggedAnyD(D, n) /\ Prev[n] # "" /\ Prev[n] # n /\ Prev[n] \in Names /\ H.clean = 0) =>
+       (LoggedAnyD(D, Prev[n]) /\ FirstLogIdxD(D, Prev[n]) < FirstLogIdxD(D, n))
 
 \* C06: nothing stays stranded between the two renames of the move once the
 \* receiver is idle again; whatever was confirmed is still held
-Idle == m.ready /\ m.rec = "" /\ m.thr = {} /\ m.vq = {} /\ m.fq = {} /\ m.val = NoJob /\ m.fin = NoJob
-P_C06_NoStrand == (Idle /\ ~KF_S7) => \A t \in Targets : d.finalLck[t] = Nil
+F_C06_NoStrand(D, H) == (H.idle /\ ~KF_S7) => \A t \in Targets : D.finalLck[t] = Nil
 \* (a version that the sender replaced by another one is not "lost")
-Superseded(n) == \E v1, v2 \in 1..3 : v1 # v2 /\ <<n, v1>> \in h.seen /\ <<n, v2>> \in h.seen
-P_C06_NoLoss == \A nv \in h.passed : Superseded(nv[1]) \/ Tainted(nv[1]) \/ Held(nv[1], nv[2])
+SupersededH(H, n) == \E v1, v2 \in 1..3 : v1 # v2 /\ <<n, v1>> \in H.seen /\ <<n, v2>> \in H.seen
+F_C06_NoLoss(D, H) ==
+  \A nv \in H.passed : SupersededH(H, nv[1]) \/ TaintedH(H, nv[1]) \/ HeldD(D, H, nv[1], nv[2])
 
-\* C09 (protocol half): the companion claims only blocks that hold bytes of
-\* its version (corruption in transit is not the record's business: X counts)
+\* C09 (protocol half): the companion claims only blocks that were written into
+\* the staged body (corruption in transit is not the record's business)
 OkBody(body, have) == body # Nil /\ \A k \in have : body[k] # Z
-P_C09_Sound ==
-  \A n \in Names : (d.cmp[n] # NoCmp /\ d.cmp[n].have # {} /\ ~Stale(n)) =>
-     \/ OkBody(d.part[n], d.cmp[n].have) \/ OkBody(d.full[n], d.cmp[n].have)
-     \/ OkBody(d.waitf[n], d.cmp[n].have)
-     \/ OkBody(d.finalLck[Target(n, d.cmp[n].ren)], d.cmp[n].have)
-     \/ OkBody(d.final[Target(n, d.cmp[n].ren)], d.cmp[n].have)
+F_C09_Sound(D, H) ==
+  \A n \in Names : (D.cmp[n] # NoCmp /\ D.cmp[n].have # {} /\ ~StaleH(H, n)) =>
+     \/ OkBody(D.part[n], D.cmp[n].have) \/ OkBody(D.full[n], D.cmp[n].have)
+     \/ OkBody(D.waitf[n], D.cmp[n].have)
+     \/ OkBody(D.finalLck[Target(n, D.cmp[n].ren)], D.cmp[n].have)
+     \/ OkBody(D.final[Target(n, D.cmp[n].ren)], D.cmp[n].have)
 \* a body is treated as complete only if every block was written
-P_C09_Complete == \A e \in h.treated : e.stale \/ e.holes = {}
+F_C09_Complete(D, H) == \A e \in H.treated : e.stale \/ e.holes = {}
 
 \* C20: cleaning removes a partial or companion only of a version that was delivered
-P_C20_OnlyDelivered ==
-  \A c \in h.cleaned : c.v # 0 => (Logged(c.n, c.v) \/ h.arrive[<<c.n, c.v>>] > 0)
+F_C20_OnlyDelivered(D, H) ==
+  \A c \in H.cleaned : c.v # 0 => (LoggedD(D, c.n, c.v) \/ (<<c.n, c.v>> \in NV /\ H.arrive[<<c.n, c.v>>] > 0))
+
+P_C01_Final == F_C01_Final(d, HView)
+P_C01_Lck == F_C01_Lck(d, HView)
+P_C01_NoFalsePass == F_C01_NoFalsePass(d, HView)
+P_C05_Once == F_C05_Once(d, HView)
+P_C05_LogOnce == F_C05_LogOnce(d, HView)
+P_C04_Order == F_C04_Order(d, HView)
+P_C06_NoStrand == F_C06_NoStrand(d, HView)
+P_C06_NoLoss == F_C06_NoLoss(d, HView)
+P_C09_Sound == F_C09_Sound(d, HView)
+P_C09_Complete == F_C09_Complete(d, HView)
+P_C20_OnlyDelivered == F_C20_OnlyDelivered(d, HView)
 
 View == <<d, m, b>>
 =============================================================================
